@@ -343,8 +343,29 @@ def raise_rule(ctx: Ctx) -> None:
         f = m.method(cn, "parse", own=True)
         s = eff.solved(f)
         if s.unresolved:
-            (o, t), ch = sorted(s.unresolved.items())[0]
-            raise AnalysisError(f"R15.raise: unresolved call `{t}` at {o} on the load path of {cn}")
+            # a call into a library module the external-callee table does not know (ast.literal_eval, json.loads, re.compile ..) can raise
+            # whatever that library raises: on the load path that is a decided violation unless it is tabled; anything else that cannot
+            # be resolved stays an analysis error
+            import re as _re
+            rest = []
+            for (o, t), ch in sorted(s.unresolved.items()):
+                mm = _re.match(r"^([A-Za-z_][A-Za-z_0-9]*)\.([A-Za-z_][A-Za-z_0-9.]*)\(", t)
+                lib = None
+                if mm:
+                    for mod_ in m.modules.values():
+                        tgt = mod_.imports.get(mm.group(1))
+                        if tgt is not None and not tgt.startswith("architecture_simulator") and mod_.relpath.split(":")[0] in o:
+                            lib = tgt
+                if lib is not None and lib.split(".")[0] not in ("fixedint", "pyparsing", "math", "typing", "dataclasses", "abc", "enum"):
+                    total += 1
+                    r.check(False, f"{cn}|external:{mm.group(1)}.{mm.group(2)}", o, f"`{t[:80]}` on the load path of {cn} calls into `{lib}`, whose "
+                            "exceptions are not parser errors (and are not known to the external-callee table): a malformed program can surface as a "
+                            "raw library exception instead of a ParserException with a line number")
+                else:
+                    rest.append((o, t))
+            if rest:
+                o, t = rest[0]
+                raise AnalysisError(f"R15.raise: unresolved call `{t}` at {o} on the load path of {cn}")
         clo = eff.closure(f)
         for (g, spec) in sorted(clo, key=lambda k: k[0].qname):
             for st in eff.live_stmts(g.node.body, spec):
@@ -447,6 +468,12 @@ def line_rule(ctx: Ctx) -> None:
             f"(recovered form: {form})")
     ok = form is not None and "_c1" in form["text"] and "_c0" not in form["text"]
     r.check(ok, "Parser._sanitize|carry", f.loc(), "comment stripping no longer keeps each entry's line number")
+    tokenize_clause(ctx, r)
+
+
+def tokenize_clause(ctx: Ctx, r) -> None:
+    """Every sanitized entry is tokenised by *this parser's own* grammar, freshly: token_list gets (number, line, pattern(line))."""
+    m = ctx.model
     f = m.method("Parser", "_tokenize", own=True)
     from ..parsershape import normal_flow
     tfl = normal_flow(m, f)
@@ -456,7 +483,8 @@ def line_rule(ctx: Ctx) -> None:
     import re as _re
     apps = [_re.sub(r"@\d+", "", a_) for a_ in apps]
     want_t = {f"P0.token_list.append(({E}[0], {E}[1], P0._pattern_line.{fn}({E}[1])))" for fn in ("parseString", "parse_string")}
-    r.check(len(apps) == 1 and apps[0] in want_t, "Parser._tokenize|carry", f.loc(), f"tokens no longer carry (line_number, line): {apps}")
+    r.check(len(apps) == 1 and apps[0] in want_t, "Parser._tokenize|carry", f.loc(), "every entry must be tokenised by the parser's own grammar, "
+            f"P0._pattern_line.parseString(line), and carried as (line_number, line, tokens) -- no remembered tokens of another text or another grammar: {apps}")
 
 
 def _entry_loops(f: FuncInfo, node: ast.AST, lists):
@@ -769,6 +797,10 @@ def run(ctx: Ctx) -> None:
     fault_rule(ctx, "R15.rt")
     from ..pipelinespec import step_rule
     step_rule(ctx, "R15.step", raises_only=True)
+    # an illegal data address is reported by the instruction that uses it: the three widths of a cached store reach the range check
+    # of the backing memory the same way (a width that skips the block fetch accepts the store and lets a later eviction fail)
+    from ..siblingrule import sibling_rule
+    sibling_rule(ctx, "R15.sib", groups=[("WriteBackMemorySystem", "write"), ("WriteThroughMemorySystem", "write"), ("BaseCacheMemorySystem", "read")], mode="data")
 
     r = ctx.rule("R15.gui", "front-end error classification")
     f = m.func("gui.webgui.get_last_error")
